@@ -49,8 +49,19 @@ Definition kwent_eqb (x y : kwent) : bool :=
 
 Definition range_eqb (x y : Z * Z) : bool := Z.eqb (fst x) (fst y) && Z.eqb (snd x) (snd y).
 
+(* a flat encoding of the observable, so that the case files are cheap to read: tokens as groups
+   (kind, start, end, keyword, sign of the offset, magnitude of the offset), diagnostics as
+   (level, class code, number of spans, then start and end of each span) *)
+Definition enc_tok (t : otok) : list N :=
+  [o_kind t; N.of_nat (o_start t); N.of_nat (o_end t); o_kw t;
+   (if (o_off t <? 0)%Z then 1 else 0)%N; Z.to_N (Z.abs (o_off t))].
+Definition enc_diag (d : diag) : list N :=
+  Z.to_N (d_level d) :: dclass_code (d_class d) :: N.of_nat (length (d_spans d))
+  :: flat_map (fun sp => [N.of_nat (fst sp); N.of_nat (snd sp)]) (d_spans d).
+
 Inductive xcase :=
 | CLex (fixflush fixesc : bool) (s : list N) (ts : list otok) (ds : list diag)
+| CLexF (fixflush fixesc : bool) (s : list N) (ts ds : list N)
 | CVerdict (fixed : bool) (levels : list Z) (ok : bool)
 | CKws (kws : list kwent)
 | CRanges (which : N) (rs : list (Z * Z))
@@ -66,6 +77,12 @@ Definition xlex_chk (c : xcase) : bool :=
   | CLex ff fe s ts ds =>
     match observe (xlex parser_cfg {| fix_flush := ff; fix_esc := fe |} s) with
     | Some (mts, mds) => list_eqb otok_eqb mts ts && list_eqb diag_eqb mds ds
+    | None => false
+    end
+  | CLexF ff fe s ts ds =>
+    match observe (xlex parser_cfg {| fix_flush := ff; fix_esc := fe |} s) with
+    | Some (mts, mds) => list_eqb N.eqb (flat_map enc_tok mts) ts && list_eqb N.eqb (flat_map enc_diag mds) ds
+                         && forallb (fun d => (0 <=? d_level d)%Z) mds
     | None => false
     end
   | CVerdict fixed levels ok =>
